@@ -89,8 +89,10 @@ def parse(e: ast.AST, env: dict | None = None, subst: dict[str, str] | None = No
 
 def atom(e: ast.AST, subst: dict[str, str] | None = None):
     t = norm(e)
-    for a, b in (subst or {}).items():
-        t = t.replace(a, b)
+    if subst:
+        import re
+        for a, b in subst.items():
+            t = re.sub(rf'(?<![\w.]){re.escape(a)}(?![\w])', b, t)
     return ('atom', t)
 
 
@@ -171,6 +173,26 @@ class PathCond(Domain):
     def widen(self, old, new):
         return (_common(old[0], new[0]), tuple(x for x in old[1] if x in new[1]), old[2] & new[2])
 
+    @staticmethod
+    def aliases(state) -> dict[str, str]:
+        """local names that are plain copies of another local on this path: {copy: original}"""
+        return {k[1:]: v[1] for k, v in state[1] if k.startswith('@')}
+
+    def resolve(self, state, name: str) -> str:
+        al = self.aliases(state)
+        seen = set()
+        while name in al and name not in seen:
+            seen.add(name)
+            name = al[name]
+        return name
+
+    def _subst(self, env: dict) -> dict[str, str]:
+        out = dict(self.subst)
+        for k, v in env.items():
+            if k.startswith('@'):
+                out[k[1:]] = v[1]
+        return out
+
     def transfer(self, st, s):
         pc, env, facts = s
         envd = dict(env)
@@ -178,6 +200,9 @@ class PathCond(Domain):
             tgt = st.targets[0] if isinstance(st, ast.Assign) else st.target
             if isinstance(tgt, ast.Name):
                 v = st.value
+                # aliases of / through the reassigned name end here
+                for k in [k for k, a in envd.items() if k.startswith('@') and (k[1:] == tgt.id or a[1] == tgt.id)]:
+                    del envd[k]
                 boolish = isinstance(v, (ast.BoolOp, ast.Compare)) or \
                     (isinstance(v, ast.UnaryOp) and isinstance(v.op, ast.Not)) or \
                     (isinstance(v, ast.Constant) and isinstance(v.value, bool)) or \
@@ -186,9 +211,17 @@ class PathCond(Domain):
                 envd = {k: f for k, f in envd.items() if tgt.id not in _names_in(f)}
                 pc = _weaken(pc, tgt.id)
                 if boolish:
-                    envd[tgt.id] = parse(v, dict(env), self.subst)
+                    envd[tgt.id] = parse(v, {k: f for k, f in env if not k.startswith('@')}, self._subst(dict(env)))
                 else:
                     envd.pop(tgt.id, None)
+                if isinstance(v, ast.Name) and v.id != tgt.id:
+                    src = v.id
+                    al = {k[1:]: a[1] for k, a in envd.items() if k.startswith('@')}
+                    src = al.get(src, src)
+                    if src != tgt.id:
+                        envd['@' + tgt.id] = ('alias', src)
+                elif isinstance(v, ast.Constant) and v.value is None:
+                    pc = f_and(pc, ('atom', f'{tgt.id} is None'))
         elif isinstance(st, (ast.AugAssign,)) and isinstance(st.target, ast.Name):
             envd.pop(st.target.id, None)
             envd = {k: f for k, f in envd.items() if st.target.id not in _names_in(f)}
@@ -201,7 +234,7 @@ class PathCond(Domain):
 
     def assume(self, test, s, truth):
         pc, env, facts = s
-        f = parse(test, dict(env), self.subst)
+        f = parse(test, {k: v for k, v in env if not k.startswith('@')}, self._subst(dict(env)))
         if not truth:
             f = f_not(f)
         new = f_and(pc, f)
